@@ -393,6 +393,12 @@ func (fx *FnExec) applyContract(st *State, fn *ssa.Function, con *Contract, args
 	envPre := fx.contractEnv(fn, con, args, pre, pre, nil)
 	envPre.old = nil
 	for i, r := range con.Common.Requires {
+		if r.Assumed {
+			// `assumed requires`: the arguments are grammar-shaped (what the external parser builds, A4); not an
+			// obligation of the caller, an assumption listed in its evidence
+			fx.trusted("grammar-shaped arguments of " + fn.String() + " (assumed at its call sites, A4): requires " + r.Text)
+			continue
+		}
 		fx.oblig(st, "call-pre", fmt.Sprintf("%s.%d", fn.Name(), i), p, envPre.boolExpr(r.Expr))
 	}
 	// allocation may advance
@@ -420,6 +426,9 @@ func (fx *FnExec) applyContract(st *State, fn *ssa.Function, con *Contract, args
 	locs := fx.havocAssigns(st, envAssign, con.Common.Assigns, fn, p)
 	envPost := fx.contractEnv(fn, con, args, pre, st, res)
 	for _, en := range con.Common.Ensures {
+		if en.Assumed {
+			fx.trusted("assumed clause of " + fn.String() + " (not verified against the body): ensures " + en.Text)
+		}
 		fx.c.Assume(Implies(st.guard, envPost.boolExpr(en.Expr)))
 	}
 	// the callee's frame must lie within the caller's (freshness of results is known by now)
